@@ -52,7 +52,7 @@ class Registry:
         self.repo = repo; self.modules = {}; self.types = {}; self.specfuns = {}; self.lemmas = []
         self.axioms = []            # (name, z3 formula, justification) -- assumptions, listed in the evidence
         self.native_specfuns = {}   # name -> dict(smt=callable, rt=callable)  (views of library objects)
-        self._ast = {}
+        self._ast = {}; self.virtual = {}        # virtual[relpath] = Python source of spec-level composition lemmas (not repository code)
         self.call_hooks = []; self.loop_hooks = []; self.stmt_hooks = []; self.methods = {}; self.consts = {}; self.binop_hooks = {}
         self.pure_methods = {"get", "keys", "values", "items", "debug", "copy", "index", "count", "has_edge", "has_node", "neighbors", "edges", "nodes", "degree", "order", "number_of_edges", "issubset"}
     def module(self, relpath):
@@ -73,7 +73,7 @@ class Registry:
     def has_fn(self, qual): return any(qual in m.fns for m in self.modules.values())
     def tree(self, relpath):
         if relpath not in self._ast:
-            self._ast[relpath] = ast.parse(open(os.path.join(self.repo, relpath)).read())
+            self._ast[relpath] = ast.parse(self.virtual[relpath] if relpath in self.virtual else open(os.path.join(self.repo, relpath)).read())
         return self._ast[relpath]
     def find_def(self, relpath, qual):
         """qualified name; components may be classes or (for closures) enclosing functions"""
